@@ -165,6 +165,9 @@ bool SchemaValidator::checkContent (XMLElementDecl* const elemDecl
             if(!result) {
                 fErrorOccurred = true;
             }
+            else if (modelType != SchemaElementDecl::Children) {
+                checkMixedValueConstraint((SchemaElementDecl*)elemDecl, childCount);
+            }
 
             return result;
         }
@@ -294,17 +297,9 @@ bool SchemaValidator::checkContent (XMLElementDecl* const elemDecl
                 fErrorOccurred = true;
             }
             // modelType is any
-            else if (elemDefaultValue)
+            else
             {
-                if (XMLString::equals(value, XMLUni::fgZeroLenString))
-                {
-                    fElemIsSpecified = true;
-                    // if this element didn't specified any value
-                    // use default value
-                    if (getScanner()->getDocHandler()) {
-                        getScanner()->getDocHandler()->docCharacters(elemDefaultValue, XMLString::stringLen(elemDefaultValue), false);
-                    }
-                }
+                checkMixedValueConstraint((SchemaElementDecl*)elemDecl, childCount);
             }
         }
     }
@@ -323,6 +318,38 @@ bool SchemaValidator::checkContent (XMLElementDecl* const elemDecl
 
     // Went ok, so return success
     return true;
+}
+
+//
+//  The value constraint of an element whose content is mixed, or of the
+//  ur-type: there is no simple type, the constraint is a string. It is the
+//  value of an element with neither element nor character children, and when
+//  it is fixed an element with children must have exactly that string, and
+//  nothing else, as its content.
+//
+void SchemaValidator::checkMixedValueConstraint(const SchemaElementDecl* const elemDecl
+                                              , const XMLSize_t                childCount)
+{
+    const XMLCh* const constraint = elemDecl->getDefaultValue();
+    if (!constraint)
+        return;
+
+    const XMLCh* const value = fDatatypeBuffer.getRawBuffer();
+    if (!childCount && XMLString::equals(value, XMLUni::fgZeroLenString))
+    {
+        // this element didn't specify any value: use the default value
+        fElemIsSpecified = true;
+        if (getScanner()->getDocHandler())
+            getScanner()->getDocHandler()->docCharacters(constraint, XMLString::stringLen(constraint), false);
+    }
+    else if ((elemDecl->getMiscFlags() & SchemaSymbols::XSD_FIXED) != 0)
+    {
+        if (childCount || !XMLString::equals(value, constraint))
+        {
+            emitError(XMLValid::FixedDifferentFromActual, elemDecl->getFullName());
+            fErrorOccurred = true;
+        }
+    }
 }
 
 void SchemaValidator::faultInAttr (XMLAttr&    toFill, const XMLAttDef&  attDef)   const
